@@ -13,6 +13,7 @@ def showVal (dirty : Bool) : Val → String
   | .init => if dirty then "dirty" else "zero"
   | .defv e => s!"def:{e}"
   | .opt p => s!"arg{p}"
+  | .zero => "zero"
 
 /-- is this leaf the one the selector `t.name` writes (model: not shadowed in the generator's list, not skipped) -/
 def isTarget (t : Tree) (d : Nat) (f : FInfo) : Bool := !f.skip && !genShadow t d f.name
@@ -20,8 +21,11 @@ def isTarget (t : Tree) (d : Nat) (f : FInfo) : Bool := !f.skip && !genShadow t 
 def optRun (t : Tree) (names : List String) (dirty : Bool) (seq : List Nat) (mirror : Bool) : String :=
   let fs := flatten t
   let defs := defaultList fs
-  let optNames := seq.map (fun j => names.getD j "?")
-  let st := withM defs (numbered optNames) (fun _ => .init)
+  -- an entry j ≥ 1000 is option j - 1000 called with the ZERO value of its parameter type (nil for a pointer, slice, map)
+  let optNames := seq.map (fun j => names.getD (j % 1000) "?")
+  let opts : List (String × Val) := ((List.range seq.length).zip seq).map (fun pj =>
+    (names.getD (pj.2 % 1000) "?", if pj.2 ≥ 1000 then Val.zero else Val.opt pj.1))
+  let st := withM defs opts (fun _ => .init)
   let ls := leavesPtrs [] [] 0 t
   -- f531104: an option for a promoted field allocates the embedded pointer structs on its way (Model/Alloc.lean)
   let step (acc : Option Alloc.Heap) (n : String) : Option Alloc.Heap :=
